@@ -35,7 +35,7 @@ def prop_theorems(pid):
     p = os.path.join(LEAN_DIR, "FsVerif", "Props", pid + ".lean")
     if not os.path.exists(p): return []
     src = strip_comments(open(p).read())
-    return re.findall(r"^theorem\s+([A-Za-z0-9_'.]+)", src, re.M)
+    return re.findall(r"^theorem\s+([A-Za-z0-9_'.!?]+)", src, re.M)
 
 def module_closure(mod):
     """FsVerif modules `mod` imports, transitively (module names)"""
